@@ -127,6 +127,28 @@ def check(tier, seed, replay=None):
             txt = rnd.choice(PIPES)
             inp = X.typed_input(rnd)
             plans.append({"kind": "pipe", "input": inp, "selects": [txt], "extra": [], "split": False, "uses": True, "ast": X.strip(EP.parse(txt, table))})
+        # bindings that meet themselves: a macro whose body binds its own name again, a macro that calls itself under a variable that counts down,
+        # one name bound both as a variable and as a macro (two name spaces: :x and @x), a macro used where one of the names it reads has been
+        # bound anew (a macro is looked up and expanded where it is used) - next to the value Eval gives, and next to the form written out
+        SELF = [('(define "m" (define "m" 5 (+ @m 1)) @m)', '6'), ('(define "m" (define "m" .n (+ @m 1)) (+ @m @m))', '(+ (+ .n 1) (+ .n 1))'),
+                ('(set "c" 2 (define "f" (? (> :c 0) (set "c" (- :c 1) @f) "done") @f))', '"done"'),
+                ('(set "c" 3 (define "down" (? (> :c 0) (set "c" (- :c 1) (+ 1 @down)) 0) @down))', '3'),
+                ('(set "x" 1 (define "x" 2 :x))', '1'), ('(define "x" 2 (set "x" 1 @x))', '2'), ('(set "x" 1 (define "x" 2 (+ :x @x)))', '3'),
+                ('(define "x" .n (set "x" 7 (+ :x @x)))', '(+ 7 .n)'), ('(map .l (set "x" . (define "x" (+ . 1) (+ :x @x))))', '(map .l (+ . (+ . 1)))'),
+                ('(define "a" 1 (define "b" (+ @a 1) (define "a" 10 @b)))', '11'), ('(set "v" 1 (define "g" (+ :v 1) (set "v" 10 @g)))', '11'),
+                ('(define "x" (size .ls) (set "x" (size .l) (push [] :x @x (set "x" 0 :x) (define "x" 0 @x))))', '(push [] (size .l) (size .ls) 0 0)'),
+                ('(define "m" (+ . 1) (| .n @m @m (define "m" (* . 2) @m)))', '(* (+ (+ .n 1) 1) 2)'),
+                ('(set "x" .n (| .m (define "x" (+ . :x) @x)))', '(+ .m .n)')]
+        for i in range(len(SELF) * (2 if quick else 40)):
+            bound, plain = SELF[i % len(SELF)]
+            inp = X.typed_input(rnd)
+            plans.append({"kind": "self", "input": inp, "selects": [bound, plain], "extra": [], "split": False, "uses": True, "ast": X.strip(EP.parse(bound, table))})
+            # the same with the outer binding given by --set
+        for extra, bound, plain in ((["--set=x=1", "--set=@x=.n"], '(set "x" 7 (+ :x @x))', '(+ 7 .n)'), (["--set=x=1", "--set=@x=.n"], '(define "x" 5 (+ :x @x))', '6'),
+                                   (["--set=@m=(+ . 1)"], '(| .n @m (define "m" (* . 2) @m))', '(* (+ .n 1) 2)'),
+                                   (["--set=c=2", "--set=@f=(? (> :c 0) (set \"c\" (- :c 1) @f) \"done\")"], '@f', '"done"')):
+            for k in range(2 if quick else 20):
+                plans.append({"kind": "self/preset", "input": X.typed_input(rnd), "selects": [bound, plain], "extra": extra, "split": False, "uses": True})
     cases, evalrecs = [], []
     for i, p in enumerate(plans):
         argv = ["--select=%s =s%d" % (t, k) for k, t in enumerate(p["selects"])] + p["extra"]
@@ -157,7 +179,7 @@ def check(tier, seed, replay=None):
             recs.append({"case": len(recs), "kind": "eval", "ast": p["ast"], "ctx": EL.ctx_of(p["input"]), "res": EL.observed_value(o, "s0")})
             descs.append({"kind": "eval/" + p["kind"], "argv": cases[i]["argv"], "input": G.canonical(p["input"]).decode("utf-8"), "row": (rows or [""])[0][:400]})
     if not replay:
-        trecs, tdescs, truns = EL.twin_records(jvh, rnd, 42 if quick else 1400, len(recs))
+        trecs, tdescs, truns = EL.twin_records(jvh, rnd, (2 * len(EL.TWINS) + 1) if quick else 1400, len(recs))
         for d in tdescs:
             d.update({"argv": d["bound"], "row": d["observed"][0]["stdout"][:200]})
             chk.nontrivial.add((tuple(d["bound"]), d["input"]))
